@@ -1,19 +1,106 @@
 """Per-property registration used by tools/gen_manifest.py (MANIFEST.json is generated)."""
 
-# property id -> dict(technique, text, note, design_ref) ; absent => not claimed (with reason)
 CLAIMED = {
     'C01': dict(
-        technique='static analysis: MIR call-graph reachability + panic-site audit (interval/guard abstract '
-                  'interpretation) + iterator progress/fuse dataflow + SCC recursion check',
-        text='For every function reachable from the public read/lookup/unwind/evaluate/convert entry points: every '
-             'panic-capable MIR site is proven safe by interval+guard reasoning, carries an exact-key reviewed reason, '
-             'or is a listed known finding; every iterator step method progresses, empties or stops on all paths; '
-             'documented-fused iterators empty their reader before returning Err; no recursion. Structural (all paths '
-             'of the code), not behavioural: no input is executed.',
-        note='Trusted: rustc MIR (mir-opt-level 0, host x86_64), reviewed_sites.json reasons, contracts of '
-             'core/alloc. Assumes Encoding passed through public API parameters has address_size in {1,2,4,8}.',
-        design_ref='§2 P,N,T; §4 C01'),
+        technique='static analysis: MIR call-graph reachability + panic-site audit (interval/guard abstract interpretation) + narrowing-cast audit + iterator progress/fuse dataflow + loop classification + SCC recursion check',
+        text='Static analysis of the MIR of every function reachable from the public reading / lookup / unwinding / evaluation / conversion entry points. T1: every return of every lazy-iterator step method has consumed input, emptied its reader, observed the end, or delegated to an iterator that did (so a caller that ignores errors still finishes in input-bounded steps). T2: iterators documented as fused reach `Reader::empty` on every path that returns Err. T3: the read-reachable call graph has no recursion. P/N: every panic-capable site (overflow/div/bounds asserts, trait arithmetic on offsets, unwrap/expect/panic!, narrowing casts) reachable from the roots is discharged by constant/interval reasoning, by a dominating guard, or by an exact-key reviewed entry; anything else is a violation. Value-level behaviour on concrete inputs is NOT decided.',
+        note='Trusted: rustc MIR (mir-opt-level 0, host x86_64), reviewed_sites.json reasons (exact keys, several with machine-checked guard requirements), contracts of core/alloc. Assumes Encoding passed through public API parameters has address_size in {1,2,4,8}. Known findings are listed, not suppressed by pattern.',
+        design_ref='§4 C01'),
+    'C02': dict(
+        technique='static analysis: codec effect summaries of the unit-header reader and whole-function store/call fingerprints of the entry readers compared with reviewed tables',
+        text='Structural necessary conditions for the DIE forest: the unit-header reader consumes exactly the reviewed field sequence per version/unit type; EntriesRaw.depth is stored only by the four reviewed shapes; end_offset is fixed at construction and the raw reader is only ever advanced; duplicate abbreviation codes reach the error exit. Forest equality over generated inputs is NOT decided.',
+        note='Trusted: rustc MIR (mir-opt-level 0, host x86_64, test-suite feature set), the reviewed tables under /verif/tables (rows generated from the pinned tree and reviewed against the DWARF standard / sibling implementation), contracts of core/alloc. A fingerprint row is coarse (sets of stores, callees, error variants, codec atoms): numeric behaviour inside an arm is not decided.',
+        design_ref='§4 C02'),
+    'C03': dict(
+        technique='static analysis: per-DW_FORM codec effect summaries (reader, line-table reader, skipper) compared with the reviewed standard table',
+        text='Per DW_FORM constant: the attribute reader, the line-table attribute reader and the attribute skipper consume the reviewed (standard) operand sequence; the advertised fixed size of a form equals the bytes the reader consumes for it; skipping and reading handle the same set of forms; name-based normalisation (Attribute::value) contains no arithmetic and no narrowing cast. Decoded values are NOT decided.',
+        note='Trusted: rustc MIR (mir-opt-level 0, host x86_64, test-suite feature set), the reviewed tables under /verif/tables (rows generated from the pinned tree and reviewed against the DWARF standard / sibling implementation), contracts of core/alloc. A fingerprint row is coarse (sets of stores, callees, error variants, codec atoms): numeric behaviour inside an arm is not decided.',
+        design_ref='§4 C03'),
+    'C04': dict(
+        technique='static analysis: per-instruction arm summaries (stores/calls/errors) and codec effect summaries compared with reviewed tables; narrowing-cast audit of line.rs',
+        text='Per line-number instruction: LineRow::execute stores exactly the registers the reviewed (standard) table names and reaches the checked address arithmetic; every store to LineRow.address is one of three monotone shapes (checked add_sized, guarded SetAddress, reset via LineRow::new); the opcode decoder consumes the standard operand kinds; header validation of zero parameters precedes their use. Row equality with the state machine over all programs is NOT decided.',
+        note='Trusted: rustc MIR (mir-opt-level 0, host x86_64, test-suite feature set), the reviewed tables under /verif/tables (rows generated from the pinned tree and reviewed against the DWARF standard / sibling implementation), contracts of core/alloc. A fingerprint row is coarse (sets of stores, callees, error variants, codec atoms): numeric behaviour inside an arm is not decided.',
+        design_ref='§4 C04'),
+    'C05': dict(
+        technique='static analysis: codec effect summaries of the CFI prefix / encoded-value readers compared with reviewed tables',
+        text='The pointer-encoding validator accepts only formats/applications that the decoder handles (X1 as sets over all encodings); every successful FDE lookup return is dominated by a `contains(address)` test; CIE/FDE prefix and encoded-value readers consume the reviewed field sequences. Completeness of lookups (binary search correctness) is NOT decided.',
+        note='Trusted: rustc MIR (mir-opt-level 0, host x86_64, test-suite feature set), the reviewed tables under /verif/tables (rows generated from the pinned tree and reviewed against the DWARF standard / sibling implementation), contracts of core/alloc. A fingerprint row is coarse (sets of stores, callees, error variants, codec atoms): numeric behaviour inside an arm is not decided.',
+        design_ref='§4 C05'),
+    'C06': dict(
+        technique='static analysis: per-DW_CFA arm summaries of UnwindTable::evaluate, decoder effect summaries and UnwindContext function fingerprints compared with reviewed tables',
+        text='Per DW_CFA instruction: the decoder consumes the standard operand kinds; UnwindTable::evaluate stores/call-sets per arm equal the reviewed table (factoring by the data/code alignment factor exactly in the arms the standard names, context-restriction error exits present, StackFull/TooManyRegisterRules mapping). Row values over all instruction sequences are NOT decided.',
+        note='Trusted: rustc MIR (mir-opt-level 0, host x86_64, test-suite feature set), the reviewed tables under /verif/tables (rows generated from the pinned tree and reviewed against the DWARF standard / sibling implementation), contracts of core/alloc. A fingerprint row is coarse (sets of stores, callees, error variants, codec atoms): numeric behaviour inside an arm is not decided.',
+        design_ref='§4 C06'),
+    'C07': dict(
+        technique='static analysis: per-DW_OP decoder effect summaries, per-Operation evaluator arm summaries and evaluator function fingerprints compared with reviewed tables',
+        text="Per DW_OP opcode: Operation::parse consumes the standard operand kinds; per Operation variant the evaluator's arm calls the reviewed set of stack/value operations and error exits; the iteration limit is incremented and tested in every cycle that evaluates an operation; branch targets come only from the bounds-checked compute_pc; each Waiting state pairs with its resume method. Numeric results are NOT decided.",
+        note='Trusted: rustc MIR (mir-opt-level 0, host x86_64, test-suite feature set), the reviewed tables under /verif/tables (rows generated from the pinned tree and reviewed against the DWARF standard / sibling implementation), contracts of core/alloc. A fingerprint row is coarse (sets of stores, callees, error variants, codec atoms): numeric behaviour inside an arm is not decided.',
+        design_ref='§4 C07'),
+    'C08': dict(
+        technique='static analysis: per-DW_RLE/DW_LLE decoder effect summaries and convert_raw arm summaries compared with reviewed tables',
+        text='Per DW_RLE/DW_LLE kind: the raw entry decoders consume the standard operand kinds; convert_raw per-variant call sets equal the reviewed table; the only Ok(Some(range)) return of both convert_raw functions is dominated by the emptiness/tombstone guard. Resolved values are NOT decided.',
+        note='Trusted: rustc MIR (mir-opt-level 0, host x86_64, test-suite feature set), the reviewed tables under /verif/tables (rows generated from the pinned tree and reviewed against the DWARF standard / sibling implementation), contracts of core/alloc. A fingerprint row is coarse (sets of stores, callees, error variants, codec atoms): numeric behaviour inside an arm is not decided.',
+        design_ref='§4 C08'),
+    'C09': dict(
+        technique='static analysis: narrowing-cast audit of the primitive codecs, endianness-polarity dominance rule, function fingerprints of the codecs',
+        text='Narrowing discipline and sibling agreement of the primitive codecs: every narrowing cast in leb128::read / Reader defaults / ReaderOffset impls is a checked idiom; endianness polarity of all Endianity read/write functions agrees; size helpers and encoders share loop structure. Exactness over all byte strings is NOT decided.',
+        note='Trusted: rustc MIR (mir-opt-level 0, host x86_64, test-suite feature set), the reviewed tables under /verif/tables (rows generated from the pinned tree and reviewed against the DWARF standard / sibling implementation), contracts of core/alloc. A fingerprint row is coarse (sets of stores, callees, error variants, codec atoms): numeric behaviour inside an arm is not decided.',
+        design_ref='§4 C09'),
+    'C10': dict(
+        technique='static analysis: unsafe census and store-discipline audit (dominance by assert guards), delegation-shape rule for RelocateReader, reader function fingerprints, compile-fail witnesses',
+        text='Unsafe audit of the shared-buffer reader (private fields, stores only in new/skip/truncate behind asserts, from_raw_parts lengths), delegation shape of RelocateReader, Reader trait parametricity premise, and compile-fail witnesses (EndianRcSlice !Send, sub-reader cannot outlive buffer, private range field). Observational equality of reader kinds is NOT decided.',
+        note='Trusted: rustc MIR (mir-opt-level 0, host x86_64, test-suite feature set), the reviewed tables under /verif/tables (rows generated from the pinned tree and reviewed against the DWARF standard / sibling implementation), contracts of core/alloc. A fingerprint row is coarse (sets of stores, callees, error variants, codec atoms): numeric behaviour inside an arm is not decided.',
+        design_ref='§4 C10'),
+    'C11': dict(
+        technique='static analysis: per-AttributeValue form/size/write summaries compared with reviewed tables and size-model vs emission bag equality',
+        text='Per write::AttributeValue variant: form/size/write fingerprints equal the reviewed table and the size model equals the emitted bytes (bag equality); fix-ups are pushed immediately before a same-size placeholder. Forest equality after reading back is NOT decided.',
+        note='Trusted: rustc MIR (mir-opt-level 0, host x86_64, test-suite feature set), the reviewed tables under /verif/tables (rows generated from the pinned tree and reviewed against the DWARF standard / sibling implementation), contracts of core/alloc. A fingerprint row is coarse (sets of stores, callees, error variants, codec atoms): numeric behaviour inside an arm is not decided.',
+        design_ref='§4 C11'),
+    'C12': dict(
+        technique='static analysis: per-variant converter arm summaries (no reachable wildcard) compared with reviewed tables',
+        text='Converters name every source variant (no reachable wildcard), their per-variant call/error sets equal the reviewed tables; no unchecked narrowing of read-derived values in convert-reachable code (shared with C01 known findings). Semantic equality of input and output is NOT decided.',
+        note='Trusted: rustc MIR (mir-opt-level 0, host x86_64, test-suite feature set), the reviewed tables under /verif/tables (rows generated from the pinned tree and reviewed against the DWARF standard / sibling implementation), contracts of core/alloc. A fingerprint row is coarse (sets of stores, callees, error variants, codec atoms): numeric behaviour inside an arm is not decided.',
+        design_ref='§4 C12'),
+    'C13': dict(
+        technique='static analysis: per-LineInstruction emitted codec sequences compared with the reviewed table',
+        text="Per write::LineInstruction variant the emitted operand sequence equals the reviewed table and pairs with the reader's decoder for the same opcode; extended-opcode lengths equal the bytes that follow. Opcode selection arithmetic is NOT decided.",
+        note='Trusted: rustc MIR (mir-opt-level 0, host x86_64, test-suite feature set), the reviewed tables under /verif/tables (rows generated from the pinned tree and reviewed against the DWARF standard / sibling implementation), contracts of core/alloc. A fingerprint row is coarse (sets of stores, callees, error variants, codec atoms): numeric behaviour inside an arm is not decided.',
+        design_ref='§4 C13'),
+    'C14': dict(
+        technique='static analysis: per-CallFrameInstruction emitted codec sequences compared with the reviewed table',
+        text="Per write::CallFrameInstruction variant the emitted operand sequences equal the reviewed table and pair with the reader's decoder; factored writes are preceded by the exactness checks with an error exit. Equality of evaluated rows is NOT decided.",
+        note='Trusted: rustc MIR (mir-opt-level 0, host x86_64, test-suite feature set), the reviewed tables under /verif/tables (rows generated from the pinned tree and reviewed against the DWARF standard / sibling implementation), contracts of core/alloc. A fingerprint row is coarse (sets of stores, callees, error variants, codec atoms): numeric behaviour inside an arm is not decided.',
+        design_ref='§4 C14'),
+    'C15': dict(
+        technique='static analysis: per-Operation emitted codec sequences and size model compared with reviewed tables; size vs write bag equality',
+        text='Per write::Operation variant: emitted sequences equal the reviewed table, the size model equals the emitted bytes (bag equality), branch displacement and length prefixes come from the same size() calls. Evaluation equality is NOT decided.',
+        note='Trusted: rustc MIR (mir-opt-level 0, host x86_64, test-suite feature set), the reviewed tables under /verif/tables (rows generated from the pinned tree and reviewed against the DWARF standard / sibling implementation), contracts of core/alloc. A fingerprint row is coarse (sets of stores, callees, error variants, codec atoms): numeric behaviour inside an arm is not decided.',
+        design_ref='§4 C15'),
+    'C16': dict(
+        technique='static analysis: per-Range/Location emitted codec sequences per encoding compared with reviewed tables',
+        text='Per write Range/Location variant and encoding: emitted sequences equal the reviewed table; validity error exits present on the stated edges. Value equality after reading back is NOT decided.',
+        note='Trusted: rustc MIR (mir-opt-level 0, host x86_64, test-suite feature set), the reviewed tables under /verif/tables (rows generated from the pinned tree and reviewed against the DWARF standard / sibling implementation), contracts of core/alloc. A fingerprint row is coarse (sets of stores, callees, error variants, codec atoms): numeric behaviour inside an arm is not decided.',
+        design_ref='§4 C16'),
+    'C17': dict(
+        technique='static analysis: section identity/name wiring tables from MIR, stride=width rule for indexed tables, sortedness of the case-fold static',
+        text='Wiring tables: each Section impl returns its own SectionId, SectionId::name/dwo_name agree with the reviewed name table, indexed table accesses use stride = element width, CASE_FOLD_DATA is sorted. Lookup completeness is NOT decided.',
+        note='Trusted: rustc MIR (mir-opt-level 0, host x86_64, test-suite feature set), the reviewed tables under /verif/tables (rows generated from the pinned tree and reviewed against the DWARF standard / sibling implementation), contracts of core/alloc. A fingerprint row is coarse (sets of stores, callees, error variants, codec atoms): numeric behaviour inside an arm is not decided.',
+        design_ref='§4 C17'),
+    'C18': dict(
+        technique='static analysis: override-set and ordering rule for RelocateReader/RelocateWriter, provenance (backward slice) of offset/address values',
+        text='RelocateReader overrides exactly the relocatable primitives and takes the offset before the inner read; RelocateWriter overrides exactly the relocatable writers; offset newtypes are built from relocatable reads. Byte identity of relocated output is NOT decided.',
+        note='Trusted: rustc MIR (mir-opt-level 0, host x86_64, test-suite feature set), the reviewed tables under /verif/tables (rows generated from the pinned tree and reviewed against the DWARF standard / sibling implementation), contracts of core/alloc. A fingerprint row is coarse (sets of stores, callees, error variants, codec atoms): numeric behaviour inside an arm is not decided.',
+        design_ref='§4 C18'),
+    'C19': dict(
+        technique='static analysis: per-variant arm summaries of the filter edge collectors compared with reviewed tables',
+        text='Edge-kind agreement: the attribute/operation variants for which conversion creates an entry reference are a subset of those the filter follows; per-variant fingerprints of the filter equal the reviewed tables. Closure/minimality over all graphs is NOT decided.',
+        note='Trusted: rustc MIR (mir-opt-level 0, host x86_64, test-suite feature set), the reviewed tables under /verif/tables (rows generated from the pinned tree and reviewed against the DWARF standard / sibling implementation), contracts of core/alloc. A fingerprint row is coarse (sets of stores, callees, error variants, codec atoms): numeric behaviour inside an arm is not decided.',
+        design_ref='§4 C19'),
+    'C20': dict(
+        technique='static analysis: reset/clear dominance rules, field-coverage of reset, interior-mutability query, compile-fail witnesses',
+        text='Reset discipline: UnwindContext::initialize resets before use and reset stores every field; read_attributes clears the buffer first; no iterator/cursor type holds interior mutability; witnesses that two tables cannot share a context. Equality of reused vs fresh results is NOT decided.',
+        note='Trusted: rustc MIR (mir-opt-level 0, host x86_64, test-suite feature set), the reviewed tables under /verif/tables (rows generated from the pinned tree and reviewed against the DWARF standard / sibling implementation), contracts of core/alloc. A fingerprint row is coarse (sets of stores, callees, error variants, codec atoms): numeric behaviour inside an arm is not decided.',
+        design_ref='§4 C20'),
 }
 
-NOT_APPLICABLE = {
-}
+NOT_APPLICABLE = {}
